@@ -4,6 +4,11 @@ import (
 	"encoding/json"
 	"fmt"
 	"os"
+	"path/filepath"
+	"strings"
+
+	"github.com/grafana/cog/internal/veneers/rewrite"
+	cogyaml "github.com/grafana/cog/internal/yaml"
 
 	"github.com/grafana/cog/internal/ast"
 	"github.com/grafana/cog/internal/ast/compiler"
@@ -39,6 +44,62 @@ func init() {
 			fmt.Printf("== after %T (err=%v)\n%s", pass, err, irSummary(cur))
 			if err != nil {
 				return
+			}
+		}
+	}
+}
+
+func init() {
+	subcommands["c17dbg"] = func(args []string) {
+		raw, _ := os.ReadFile(args[0])
+		var rp struct {
+			Case struct {
+				InputIR  string `json:"input_ir"`
+				Language string `json:"language"`
+				Veneers  string `json:"veneers"`
+			} `json:"case"`
+		}
+		_ = json.Unmarshal(raw, &rp)
+		fmt.Println(rp.Case.Veneers)
+		var schemas ast.Schemas
+		if err := json.Unmarshal([]byte(rp.Case.InputIR), &schemas); err != nil {
+			fmt.Println("cannot decode IR:", err)
+			return
+		}
+		processed, err := newLanguage(rp.Case.Language).CompilerPasses().Process(schemas)
+		fmt.Println("chain err:", err)
+		builders := (&ast.BuilderGenerator{}).FromAST(processed)
+		// apply the veneers (split per "language:" document)
+		dir, _ := os.MkdirTemp("", "c17dbg")
+		defer os.RemoveAll(dir)
+		var files []string
+		for i, doc := range strings.Split(rp.Case.Veneers, "language: all\n") {
+			if strings.TrimSpace(doc) == "" {
+				continue
+			}
+			f := filepath.Join(dir, fmt.Sprintf("v%d.yaml", i))
+			_ = os.WriteFile(f, []byte("language: all\n"+doc), 0o644)
+			files = append(files, f)
+		}
+		rw, err := cogyaml.NewVeneersLoader().RewriterFrom(files, rewrite.Config{})
+		fmt.Println("veneers load err:", err)
+		if err == nil {
+			builders, err = rw.ApplyTo(processed, builders, rp.Case.Language)
+			fmt.Println("apply err:", err)
+		}
+		for _, b := range builders {
+			if len(args) > 1 && b.Name != args[1] {
+				continue
+			}
+			fmt.Printf("builder %s.%s\n", b.Package, b.Name)
+			for _, o := range b.Options {
+				fmt.Printf("   option %s args=%d\n", o.Name, len(o.Args))
+				for _, a := range o.Args {
+					fmt.Printf("      arg %s: %s\n", a.Name, typeSummary(a.Type, 0))
+				}
+				for _, a := range o.Assignments {
+					fmt.Printf("      assign %s (%s)\n", a.Path.String(), a.Method)
+				}
 			}
 		}
 	}
